@@ -24,6 +24,8 @@ def add_reports(rng, ap):
         cols = rng.sample(COLS, rng.randint(2, len(COLS)))
         if "id" not in cols and rng.random() < 0.7:
             cols.insert(0, "id")
+        if rng.random() < 0.15:
+            cols.append(rng.choice(cols))          # a column requested twice: a JSON record is a dict
         rep = {"id": f"rep{k}", "cols": cols, "leaf": rng.random() < 0.5, "fmt": rng.choice(FORMATS),
                "formats": rng.choice([["json"], ["csv"], ["json", "csv"]])}
         reps.append(rep)
@@ -38,8 +40,41 @@ def add_reports(rng, ap):
     return ap, reps, tail
 
 
+def same_cell(col, a, b):
+    """cost cells are sums of floats rendered with two decimals: the last digit may differ by rounding"""
+    if a == b:
+        return True
+    if col == "cost":
+        try:
+            return abs(float(a or 0) - float(b or 0)) <= 0.0101 and bool(a) == bool(b)
+        except (TypeError, ValueError):
+            return False
+    return False
+
+
+def model_table(rep, allrows):
+    """rows, CSV and JSON renderings by the extracted Model/Report.v from the cell texts of ALL tasks:
+    which tasks are kept, their order, header line, and the dict semantics of a JSON record"""
+    codes, back = {}, {}
+
+    def code(x):
+        if x not in codes:
+            codes[x] = len(codes) + 1
+            back[codes[x]] = x
+        return codes[x]
+    cols = rep["cols"]
+    line = ["report", 1 if rep["leaf"] else 0, len(cols), len(cols)] + [code("title:" + c) for c in cols] + [len(allrows)]
+    for row in allrows:
+        line += [1 if row["_leaf"] else 0] + [code(row[c]) for c in cols]
+    out = common.run_driver("miscdriver", [" ".join(map(str, line))])[0]
+    left, right = out.split("|")
+    csvt = [[back[int(x)] for x in r.split(",")] for r in left.strip().split(";") if r]
+    recs = [[None if x == "-" else back[int(x)] for x in r.split(",")] for r in right.strip().split(";") if r]
+    return csvt, recs
+
+
 def expected_rows(ap, rep, res):
-    """the table the property describes, computed from the schedule (scenario 0) and the ledger"""
+    """the cell texts the property describes for EVERY task, computed from the schedule (scenario 0) and the ledger"""
     fmt = rep["fmt"] or ap.get("timeformat") or "%Y-%m-%d"
     idx = projects.task_index(ap)
     prio = {}
@@ -49,10 +84,8 @@ def expected_rows(ap, rep, res):
         rate[projects.fid(p)] = float(n.get("rate") or 0.0)
     for p, n in idx.items():
         t = projects.fid(p)
-        if rep["leaf"] and "kids" in n:
-            continue
         st = res["tasks"][t][0]
-        row = {}
+        row = {"_leaf": "kids" not in n}
         for c in rep["cols"]:
             if c == "id":
                 row[c] = t
@@ -105,36 +138,37 @@ def run(ctx):
             bad.append({"what": "generating reports altered the schedule", "text": c["text"]})
         for rep, out in zip(reps, r["reports"]):
             stats["reports"] += 1
-            want = expected_rows(ap, rep, r)
+            allrows = expected_rows(ap, rep, r)
+            mcsv, mrecs = model_table(rep, allrows)
+            want = mcsv[1:]
             # rendering twice gives the same table
             if out["json0"] != out["json1"] or out["csv0"] != out["csv1"]:
                 bad.append({"what": "rendering a report twice gives different tables", "report": rep, "text": c["text"]})
             csvt = out["csv0"] or []
             header, body = (csvt[0] if csvt else []), csvt[1:]
-            titles = [h.lower() for h in header]
+            if [h.lower() for h in header] != rep["cols"]:
+                bad.append({"what": "the CSV header is not the list of requested columns", "header": header, "report": rep, "text": c["text"]})
             if len(body) != len(want):
                 bad.append({"what": "the report does not have one row per task in declaration order (leaves only when requested)",
                             "report": rep, "rows": len(body), "expected_rows": len(want), "text": c["text"]})
                 continue
-            dup = len(set(rep["cols"])) != len(rep["cols"])
             for i, (row, w) in enumerate(zip(body, want)):
-                for j, col in enumerate(rep["cols"]):
-                    if j < len(row) and row[j] != w[col]:
-                        bad.append({"what": f"report cell differs from the scheduled value (column {col})", "row": i, "cell": row[j], "expected": w[col],
-                                    "report": rep, "text": c["text"]})
-                        break
+                if len(row) != len(w) or not all(same_cell(cc, a, b) for cc, a, b in zip(rep["cols"], row, w)):
+                    j = next((k for k in range(min(len(row), len(w))) if not same_cell(rep["cols"][k], row[k], w[k])), 0)
+                    bad.append({"what": f"report cell differs from the scheduled value (column {rep['cols'][j] if j < len(rep['cols']) else j})", "row": i,
+                                "cells": row, "expected": w, "report": rep, "text": c["text"]})
+                    break
             js = out["json0"] or {}
             data = js.get("data", [])
-            if not dup:
-                if len(data) != len(body):
-                    bad.append({"what": "JSON and CSV renderings have different numbers of rows", "report": rep, "text": c["text"]})
-                else:
-                    for i, (rec, row) in enumerate(zip(data, body)):
-                        for j, h in enumerate(js.get("columns", [])):
-                            if j < len(row) and rec.get(h) != row[j]:
-                                bad.append({"what": "JSON and CSV renderings carry different cells", "row": i, "column": h,
-                                            "json": rec.get(h), "csv": row[j], "report": rep, "text": c["text"]})
-                                break
+            if len(data) != len(mrecs):
+                bad.append({"what": "JSON and CSV renderings have different numbers of rows", "report": rep, "text": c["text"]})
+            else:
+                jcols = js.get("columns", [])
+                for i, (rec, mr) in enumerate(zip(data, mrecs)):
+                    got = [rec.get(h) for h in jcols]
+                    if len(jcols) != len(mr) or not all(same_cell(cc, a, b) for cc, a, b in zip(rep["cols"], got, mr)):
+                        bad.append({"what": "JSON and CSV renderings carry different cells", "row": i, "json": got, "model": mr, "report": rep, "text": c["text"]})
+                        break
             # generated files carry the same tables
             for fn, content in out["files"].items():
                 stats["files"] += 1
@@ -162,5 +196,4 @@ def run(ctx):
            "rule": "scheduled core / sub-slot / tree / ALAP projects with resource rates, 1-2 task reports each with a random column selection (id, name, start, end, cost, priority), leaf-only flag, report and project time formats, json / csv / both; API tables rendered twice, generated files re-read, task attributes and ledger compared before/after",
            "samples": [{"text": cases[0]["text"][-600:], "csv": (res[0].get("reports") or [{}])[0].get("csv0")}]}
     common.finish(ctx, "proof", cov, violations,
-                  ["partial: strftime, json and csv are oracles; cell expectations are recomputed by the harness from the schedule and the ledger",
-                   "JSON/CSV cell equality is claimed for distinct column titles (a JSON record is a dict)"])
+                  ["partial: strftime, json and csv are oracles; cell texts are recomputed by the harness from the schedule and the ledger; which rows appear, their order, the header and the dict semantics of JSON records (duplicate titles keep the last binding) are computed by the extracted Model/Report.v"])
